@@ -17,7 +17,13 @@
 (*                magnitude in the one-ulp class) only FitStatus / Finite  *)
 (*                are decided and the event counts as Unconstrained        *)
 (*   y, size, cfx Labels, Sizes, Shape, Means   (KMeansProps.FitFx)        *)
-(*   Q8, c8, pred PredictFx -- fixed-point nearest-centroid clause         *)
+(*   Q8, c8, pred PredictFx -- fixed-point nearest-centroid clause over ALL  *)
+(*                k reported centroids, with or without members.  After a   *)
+(*                fit that ended with a memberless cluster the harness also *)
+(*                predicts probe rows derived from the model (every         *)
+(*                centroid as reported, midpoints towards the memberless    *)
+(*                one); ProbeEmpty counts the fits where such a row was     *)
+(*                labelled with the memberless centroid.                    *)
 (*   Q, exact     PredictExact -- exact rational clause with ties, when    *)
 (*                the data are lattice valued, double precision, n <=      *)
 (*                ExactMaxN and every cluster has members (so that the     *)
@@ -77,7 +83,7 @@ VARIABLES l, nbad, hits, nt, drift, empties
 vars == <<l, nbad, hits, nt, drift, empties>>
 
 HitNames == {"KMFit", "FitLattice", "FitCont", "FitF32", "Means", "PredictFx", "PredictExact", "PredictTie",
-             "EmptyCluster", "Unconstrained", "FitNotOk", "FitModel", "FitOffset", "FitOffsetExact", "BbdOffset",
+             "EmptyCluster", "Unconstrained", "FitNotOk", "FitModel", "FitOffset", "FitOffsetExact", "BbdOffset", "ProbeEmpty",
              "Bbd", "BbdTie", "BbdCoincident", "BbdEmpty", "BbdRational", "BbdModel", "Drift"}
 
 AllPositive(v) == \A c \in 1..Len(v) : v[c] > 0
@@ -122,6 +128,10 @@ FitTags(e) ==
          \cup (IF e.xs = 1 THEN {"FitCont"} ELSE {"FitLattice"})
          \cup (IF e.prec = 32 THEN {"FitF32"} ELSE {})
          \cup (IF ~AllPositive(e.size) THEN {"EmptyCluster"} ELSE {})
+         \* two-step sequence: the fit ended with a memberless cluster, and some row handed to predict
+         \* afterwards (the harness adds probe rows at and around every reported centroid) was
+         \* labelled -- admissibly, the event passed PredictFx -- with that memberless centroid
+         \cup (IF \E i \in 1..Len(e.pred) : e.size[e.pred[i] + 1] = 0 THEN {"ProbeEmpty"} ELSE {})
          \cup (IF e.offmax # 0 THEN {"FitOffset"} ELSE {})
          \cup (IF e.offmax # 0 /\ ExactApplies(e) THEN {"FitOffsetExact"} ELSE {})
          \cup (IF InModelScope(e) THEN {"FitModel"} ELSE {})
